@@ -107,7 +107,7 @@ def gen_case(seed, tier="quick"):
             else:
                 f = rng.choice((2.0, 0.5, -1.5, 3, 1.0, -1, {"$": "f64", "v": 1.25}, 0.0 if rng.random() < 0.3 else 4.0, 0 if rng.random() < 0.3 else 2))
                 if rng.random() < 0.03:
-                    f = "notanumber"
+                    f = None
                 st = {"s": kind, "op": op, "arg": f}
                 if kind == "out" and op == "negative":
                     st.pop("arg")
@@ -242,8 +242,11 @@ def _num_close(a, b, angle=False):
                 return False
     except ImportError:  # pragma: no cover
         pass
-    a = float(a)
-    b = float(b)
+    try:
+        a = float(a)
+        b = float(b)
+    except (TypeError, ValueError):
+        return type(a) is type(b) and repr(a) == repr(b)  # non-numeric garbage in, same garbage out
     if a != a and b != b:
         return True
     if a == b:
